@@ -4,10 +4,15 @@
    left associativity require; `render_with_extra_parens`, `render_stmts_x`: any sub-expression wrapped redundantly).
    The theorems are on the TOKEN level and hold for EVERY tree (all 18 node kinds, any nesting -- every tree is in the image
    of the parser) and every assignment of positions to the tokens; `Render.printable` is what the tokenizer additionally
-   needs for a source text of these tokens to exist (constants 0 <= v < 2^63, identifier grammar); spacing and comments are
-   the tokenizer component's and the correspondence stream's. *)
+   needs for a source text of these tokens to exist (constants 0 <= v < 2^63, identifier grammar).
+   TEXT level (end of this file): Text/ShowSpec.v says how tokens are written as characters (`show ts seps`: canonical token
+   texts, separator number i before token number i; `separator`: white space, line comments, non-nested block comments in any
+   number and order; `follow_ok`: an identifier or number is not directly followed by an identifier byte, a `/` not by `/` or
+   `*`; `wtok` / `showw`: the same with a free choice of spelling per token); C09_text_tokens / C09_text_roundtrip go from the CHARACTERS through the tokenizer model (Text/TokenModel.v) and the
+   parser model back to the statements (proofs: Text/LexRun.v, Text/ShowProofs.v). *)
 From Coq Require Import ZArith NArith List.
-From Trion Require Import Text.Types Text.ParseModel Text.Render Text.ParseProofs.
+From Trion Require Import Base.Utf8 Text.Types Text.ParseModel Text.Render Text.ParseProofs Text.Pipeline Text.ShowSpec Text.ShowProofs.
+From Trion Require Text.TokenModel.
 Import ListNotations.
 Open Scope N_scope.
 
@@ -66,4 +71,75 @@ Theorem C09_examples :
   /\ parse_all (src_of (pos (render_stmts_x [EInstruction [105] [t]] [true; false; false; true; true; false])) 1 1)
      = Done [IOk (mkElement 1 1 (EInstruction [105] [t]))] [PollNone; PollNone; PollNone]
   /\ length (render_with_extra_parens t [true; false; false; true; true; false]) = (length (render_tokens t) + 6)%nat.
+Proof. vm_compute. repeat split. Qed.
+
+(* ---------------------------------------------------------------------------------------------- *)
+(* TEXT level.  Token values that can be written (tok_ok: 0 <= number < 2^63, identifier grammar, strings valid UTF-8), written
+   with any separators of the grammar `separator` such that nothing fuses (seps_ok), are tokenized by the tokenizer model to
+   EXACTLY these token values, in order, followed by the end of the stream (positions: C12). *)
+Theorem C09_text_tokens : forall ts seps, Forall tok_ok ts -> seps_ok ts seps ->
+  exists toks, TokenModel.tokens_all (show ts seps) = TokenModel.Ok (map inl toks, [None; None; None]) /\ map t_val toks = ts.
+Proof. exact show_tokens. Qed.
+
+(* the tokens rendered from printable statements whose strings are UTF-8 (writable_stmt) can be written *)
+Theorem C09_text_writable : forall stmts, forallb writable_stmt stmts = true -> Forall tok_ok (render_stmts stmts).
+Proof. exact render_stmts_tok_ok. Qed.
+
+(* characters -> tokens -> statements: the text of a statement sequence (label / directive / instruction, any trees, any
+   separators incl. comments and line breaks) parses back to exactly these statements *)
+Theorem C09_text_roundtrip : forall stmts seps, forallb writable_stmt stmts = true -> seps_ok (render_stmts stmts) seps ->
+  exists els, parse_bytes (show (render_stmts stmts) seps) = Some (Done (map IOk els) [PollNone; PollNone; PollNone]) /\
+              map e_val els = stmts.
+Proof. exact text_roundtrip. Qed.
+
+(* one statement *)
+Theorem C09_text_roundtrip_stmt : forall s seps, writable_stmt s = true -> seps_ok (render_stmt s) seps ->
+  exists line col, parse_bytes (show (render_stmt s) seps)
+                   = Some (Done [IOk (mkElement line col s)] [PollNone; PollNone; PollNone]).
+Proof. exact text_roundtrip1. Qed.
+
+(* ... for ANY valid way of writing the statements as tokens (redundant parentheses anywhere: RendStmts) *)
+Theorem C09_text_roundtrip_parens : forall stmts X seps, RendStmts stmts X -> Forall tok_ok X -> seps_ok X seps ->
+  exists els, parse_bytes (show X seps) = Some (Done (map IOk els) [PollNone; PollNone; PollNone]) /\ map e_val els = stmts.
+Proof. exact text_roundtrip_rend. Qed.
+
+(* a single space before every token is always a legal choice of separators: every writable statement sequence HAS a text,
+   and that text parses back to it *)
+Theorem C09_text_spaces_ok : forall ts, seps_ok ts (map (fun _ => [32]) ts).
+Proof. exact seps_ok_spaces. Qed.
+
+Theorem C09_text_exists : forall stmts, forallb writable_stmt stmts = true ->
+  exists text els, parse_bytes text = Some (Done (map IOk els) [PollNone; PollNone; PollNone]) /\ map e_val els = stmts.
+Proof. exact text_exists. Qed.
+
+(* free choice of spelling per token (ShowSpec.wtok / showw): integers in radix 2, 8, 10, 16 with either digit case and leading
+   zeros, numbers written as character literals (plain or escaped), strings as any list of plain characters and escapes
+   (all the literal forms of C11), everything else as above; the last separator may end in a line comment without line feed *)
+Theorem C09_text_tokens_spelled : forall ws seps, Forall wtok_ok ws -> wseps_ok ws seps ->
+  exists toks, TokenModel.tokens_all (showw ws seps) = TokenModel.Ok (map inl toks, [None; None; None]) /\
+               map t_val toks = map wtok_val ws.
+Proof. exact showw_tokens. Qed.
+
+Theorem C09_text_roundtrip_spelled : forall stmts ws seps, RendStmts stmts (map wtok_val ws) -> Forall wtok_ok ws -> wseps_ok ws seps ->
+  exists els, parse_bytes (showw ws seps) = Some (Done (map IOk els) [PollNone; PollNone; PollNone]) /\ map e_val els = stmts.
+Proof. exact textw_roundtrip. Qed.
+
+(* non-vacuity: the statement  i a-/*x*/(b<TAB>-c)*<CR><LF>-d//c<LF>|10/ "q\u{22}";<LF>  (block comment, tab, CRLF, line
+   comment, a string with an escape) satisfies the premises; its text and its parse computed *)
+Theorem C09_text_example_premises : writable_stmt ex_stmt = true /\ seps_ok (render_stmt ex_stmt) ex_seps.
+Proof. exact ex_seps_ok. Qed.
+
+(* .d 0x1F,'\n' , "a\t";//end  *)
+Theorem C09_text_example_spelled_premises : Forall wtok_ok ex_wtoks /\ wseps_ok ex_wtoks ex_wseps /\
+  map wtok_val ex_wtoks = render_stmt (EDirective [100] [AConst 31; AConst 10; AStr [97; 9]]).
+Proof. exact ex_wtoks_ok. Qed.
+
+Theorem C09_text_examples :
+  showw ex_wtoks ex_wseps = [46; 100; 32; 48; 120; 49; 70; 44; 39; 92; 110; 39; 32; 44; 32; 34; 97; 92; 116; 34; 59; 47; 47; 101; 110; 100] /\
+  parse_bytes (showw ex_wtoks ex_wseps)
+    = Some (Done [IOk (mkElement 1 1 (EDirective [100] [AConst 31; AConst 10; AStr [97; 9]]))] [PollNone; PollNone; PollNone]) /\
+  show (render_stmt ex_stmt) ex_seps =
+    [105; 32; 97; 45; 47; 42; 120; 42; 47; 40; 98; 9; 45; 99; 41; 42; 13; 10; 45; 100; 47; 47; 99; 10; 124; 49; 48; 47; 32;
+     34; 113; 92; 117; 123; 50; 50; 125; 34; 59; 10] /\
+  parse_bytes (show (render_stmt ex_stmt) ex_seps) = Some (Done [IOk (mkElement 1 1 ex_stmt)] [PollNone; PollNone; PollNone]).
 Proof. vm_compute. repeat split. Qed.
